@@ -218,7 +218,14 @@ func streamEngineLife(t *testing.T, o *Out) {
 	n := envInt("VERIF_N", 100)
 	env := newEngEnv(t)
 	id := 0
+	// checks that did not return: each costs the watchdog time, and three are enough to report (the
+	// stream stops generating; what was emitted is judged)
+	hangs := 0
+	const maxHangs = 3
 	run := func(c *EngCase, kind string, cancelAt, failAt int, persistent bool, pre bool) {
+		if hangs >= maxHangs {
+			return
+		}
 		id++
 		o.Pre("engine", fmt.Sprintf("%s%d", kind, id), c.Payload())
 		env.setLimits(c)
@@ -251,6 +258,7 @@ func streamEngineLife(t *testing.T, o *Out) {
 		case <-time.After(10 * time.Second):
 			res = "hang"
 			returned = 0
+			hangs++
 		}
 		cancel() // the request context is released
 		leak := settle(base)
@@ -270,6 +278,9 @@ func streamEngineLife(t *testing.T, o *Out) {
 	// k-th storage call of the whole batch failing, and cancelled at the k-th storage call:
 	// every entry answers what its own check answers, or carries the error - one line per entry.
 	runBatch := func(c *EngCase, entries []Tup, kind string, cancelAt, failAt int, persistent bool) {
+		if hangs >= maxHangs {
+			return
+		}
 		id++
 		bid := fmt.Sprintf("%s%d", kind, id)
 		pc := *c
@@ -303,6 +314,7 @@ func streamEngineLife(t *testing.T, o *Out) {
 		case out = <-done:
 		case <-time.After(15 * time.Second):
 			returned = 0
+			hangs++
 		}
 		cancel()
 		leak := settle(base)
@@ -371,7 +383,7 @@ func streamEngineLife(t *testing.T, o *Out) {
 		run(c, "corpus", 0, fa, fp, false)
 	}
 	p := EngProfile{Name: "life"}
-	for i := 0; i < n; i++ {
+	for i := 0; i < n && hangs < maxHangs; i++ {
 		c := genEngCase(r, p)
 		if c.GDepth > 6 {
 			c.GDepth = 6
@@ -379,7 +391,15 @@ func streamEngineLife(t *testing.T, o *Out) {
 		if err := env.prepare(c, o); err != nil {
 			t.Fatalf("prepare: %v", err)
 		}
-		_, base := env.runCheck(c, true)
+		bres, base := env.runCheck(c, true)
+		if strings.HasPrefix(bres, "hang") {
+			// the undisturbed check did not return within the watchdog time
+			hangs++
+			id++
+			o.Emit("engine", fmt.Sprintf("plain%d", id), c.Payload(), "kind=plain\tlres=hang\treturned=0\tleak=0\tlcalls=0", true)
+			o.Count("lres:hang")
+			continue
+		}
 		if base > 300 {
 			o.Count("dropped:cost")
 			continue
